@@ -220,7 +220,11 @@ def rec_scene(seed):
         if seed % 3 == 0:
             it = IterativePSFPhotometry(mod, fit, DAOStarFinder(1e9, 3.0), grouper=SourceGrouper(t / 4.0) if grouping in ('grouper', 'both') else None,
                                         aperture_radius=4, maxiters=1, xy_bounds=(bval, bval) if bounds else None, localbkg_estimator=lbe)
-            r2 = it(data, mask=m, error=errmap, init_params=init.copy())
+            if seed % 6 == 0:      # the same image, mask and errors carried by an NDData object
+                from astropy.nddata import NDData, StdDevUncertainty
+                r2 = it(NDData(data, mask=m, uncertainty=None if errmap is None else StdDevUncertainty(errmap)), init_params=init.copy())
+            else:
+                r2 = it(data, mask=m, error=errmap, init_params=init.copy())
             same = all(np.allclose(np.asarray(r2[cn], dtype=float), np.asarray(res[cn], dtype=float), rtol=1e-9, atol=1e-9, equal_nan=True)
                        for cn in ('id', 'group_id', 'x_fit', 'y_fit', 'flux_fit', 'npixfit', 'flags') if cn in r2.colnames)
             rec['iter_equal'] = bool(same and len(r2) == len(res))
